@@ -106,7 +106,7 @@ def apply_inputs(plant, inp, copy=True):
             obj.power_input = arr(d["given"], pw_dt)
     ties = plant.spec.get("bus_ties", [])
     if ties:
-        table = np.array(inp["breaker"], dtype=br_dt).T.reshape(n, len(ties))
+        table = np.array(inp["breaker"], dtype=br_dt).T.reshape(len(inp["breaker"][0]), len(ties))     # (a table of another length: C20)
         kept = getattr(plant, "_breaker_table", None)
         if inp.get("breaker_table_in_place") and kept is not None and kept.shape == table.shape and kept.dtype == table.dtype:
             kept[:, :] = table          # the caller keeps one table, updates it in place and hands it over again
